@@ -614,3 +614,43 @@ S('c09-constants-hoisted', ['C09', 'C11', 'C15'], [(TDR,
   "        info_dir = os.path.join(path, 'info')\n        for entry in self.dir_reader.entries_if_dir_exists(info_dir):\n            if entry.endswith('.trashinfo'):",
   "        INFO = 'info'\n        SUFFIX = '.trashinfo'\n        info_dir = os.path.join(path, INFO)\n        for entry in self.dir_reader.entries_if_dir_exists(info_dir):\n            if entry.endswith(SUFFIX):")],
   'layout constants through locals')
+
+# ------------------------------------------------------------------ C07
+FINDER = 'trashcli/put/trash_directories_finder.py'
+CREATOR = 'trashcli/put/janitor_tools/trash_dir_creator.py'
+F('c07-mode-755', {'C07': ['R07.2']}, [(CREATOR, "self.dir_maker.mkdir_p(candidate.files_dir(), 0o700)", "self.dir_maker.mkdir_p(candidate.files_dir(), 0o755)")],
+  'files/ created 0755')
+F('c07-alt-before-top', {'C07': ['R07.1']}, [(FINDER,
+  """            for path, dir_volume in volume_trash_dir1(volume, uid):
+                add_top_trash_dir(path, dir_volume)
+            for path, dir_volume in volume_trash_dir2(volume, uid):
+                add_alt_top_trash_dir(path, dir_volume)""",
+  """            for path, dir_volume in volume_trash_dir2(volume, uid):
+                add_alt_top_trash_dir(path, dir_volume)
+            for path, dir_volume in volume_trash_dir1(volume, uid):
+                add_top_trash_dir(path, dir_volume)""")], '.Trash-$uid tried before .Trash/$uid')
+F('c07-top-nocheck', {'C07': ['R07.1'], 'C08': ['R08.3']}, [(FINDER,
+  "                          check_type=TopTrashDirCheck,", "                          check_type=NoCheck,")],
+  'shared top dir used without the security check')
+F('c07-fallback-unconditional', {'C07': ['R07.6']}, [(FINDER,
+  "            if home_fallback:\n                for path, dir_volume in home_trash_dir(environ, self.fs):",
+  "            if True:\n                for path, dir_volume in home_trash_dir(environ, self.fs):")],
+  'fallback candidate appended without the flag')
+F('fix6-reverted', {'C07': ['R07.3']}, [('trashcli/lib/trash_dirs.py',
+  "    if environ.get('XDG_DATA_HOME'):", "    if 'XDG_DATA_HOME' in environ:")], 'empty XDG_DATA_HOME honoured again')
+F('c07-home-relative', {'C07': ['R07.1']}, [(FINDER,
+  "                          path_maker_type=PathMakerType.AbsolutePaths,", "                          path_maker_type=PathMakerType.RelativePaths,")],
+  'home trash records relative paths')
+F('c07-prompt-always', {'C07': ['R07.5']}, [('trashcli/put/core/mode.py',
+  "        return self == Mode.mode_interactive and is_path_accessible", "        return is_path_accessible")],
+  'prompt without -i')
+F('c07-trashdir-plus-home', {'C07': ['R07.1']}, [(FINDER,
+  "        else:\n            for path, dir_volume in home_trash_dir(environ, self.fs):\n                add_home_trash(path, dir_volume, Gate.SameVolume)",
+  "        if True:\n            for path, dir_volume in home_trash_dir(environ, self.fs):\n                add_home_trash(path, dir_volume, Gate.SameVolume)")],
+  '--trash-dir no longer restricts the choice')
+S('c07-mode-constant', ['C07', 'C04'], [(CREATOR,
+  "            self.dir_maker.mkdir_p(candidate.trash_dir_path, 0o700)\n            self.dir_maker.mkdir_p(candidate.files_dir(), 0o700)\n            self.dir_maker.mkdir_p(candidate.info_dir(), 0o700)",
+  "            private = 0o700\n            for d in (candidate.trash_dir_path, candidate.files_dir(), candidate.info_dir()):\n                self.dir_maker.mkdir_p(d, private)")],
+  'mode through a constant, directories in a loop')
+S('c07-xdg-and-form', ['C07'], [('trashcli/lib/trash_dirs.py',
+  "    if environ.get('XDG_DATA_HOME'):", "    if 'XDG_DATA_HOME' in environ and environ['XDG_DATA_HOME']:")], 'membership and truthiness')
